@@ -9,11 +9,32 @@
 (*   ExpansionChecks  the checker accepts                                                       *)
 (*   SameConclusion   the accepted sequent has the conclusion that eval reports                  *)
 (*   NoExtraHyps      its hypotheses are among those that eval reports                           *)
+(*   ExportContiguous / ExportCitations / ExportProvesEval   the exported expansion (ProofTerm.export) is numbered contiguously  *)
+(*                    below the step's id, cites only premises or earlier visible lines, and its last line states what eval reports *)
 EXTENDS Naturals, Sequences, FiniteSets, TLC, TraceLib
 SetOf(s) == { s[i] : i \in 1..Len(s) }
+\* ---- the exported expansion (ProofTerm.export with prefix <<k>>, k = number of premises): numbered lines
+Prefix(s, n) == SubSeq(s, 1, n)
+CanDependOn(self, other) == LET k == Len(other) IN
+   k >= 1 /\ k <= Len(self) /\ Prefix(other, k - 1) = Prefix(self, k - 1) /\ other[k] < self[k]
+NextOK(a, b) == \/ b = Append(a, 0)
+                \/ \E j \in 1..Len(a) : b = Append(Prefix(a, j - 1), a[j] + 1)
+\* ids: first line <<k, 0>>, then pre-order contiguous below the macro step's id <<k>>
+ExportContiguous(e) == LET L == e.exp_lines IN
+   L = <<>> \/ (/\ L[1][1] = <<e.nprems, 0>>
+                /\ \A i \in 1..(Len(L) - 1) : NextOK(L[i][1], L[i + 1][1]) /\ Len(L[i + 1][1]) >= 2 /\ L[i + 1][1][1] = e.nprems)
+\* citations: an earlier line of the expansion that is visible, or one of the premises <<0>> .. <<k-1>>
+ExportCitations(e) == LET L == e.exp_lines ids == { L[i][1] : i \in 1..Len(L) } IN
+   \A i \in 1..Len(L) : \A j \in 1..Len(L[i][2]) :
+       LET p == L[i][2][j] IN
+       \/ (Len(p) = 1 /\ p[1] < e.nprems)
+       \/ (p \in ids /\ CanDependOn(L[i][1], p))
 Judged(e) == e.kind = "macro" /\ e.eval[1] /\ e.expand[1]
 ClausesOf(e) ==
   IF ~Judged(e) THEN {}
+  ELSE IF Len(e.exp_lines) < 400 /\ ~ExportContiguous(e) THEN {"ExportContiguous"}
+  ELSE IF Len(e.exp_lines) < 400 /\ ~ExportCitations(e) THEN {"ExportCitations"}
+  ELSE IF e.exp_lines # <<>> /\ e.exp_last # <<e.eval[2], e.eval[3]>> /\ ~(e.exp_last[2] = e.eval[3] /\ SetOf(e.exp_last[1]) \subseteq SetOf(e.eval[2])) THEN {"ExportProvesEval"}
   ELSE IF ~e.check[1] THEN {"ExpansionChecks"}
   ELSE (IF e.check[3] = e.eval[3] THEN {} ELSE {"SameConclusion"})
        \cup (IF SetOf(e.check[2]) \subseteq SetOf(e.eval[2]) THEN {} ELSE {"NoExtraHyps"})
